@@ -33,10 +33,12 @@ for p in $props; do
   go build -tags verif -cover -coverpkg=verif/monitors/$lp,$pkgs -o $bin ./monitors/$lp || { echo "$p build failed"; continue; }
   d=$scratch/cov-$p
   mkdir -p $d $scratch/rep-$p
-  VERIF_BUDGET_DIV=${COV_DIV:-10} GOMAXPROCS=${COV_PROCS:-4} GOCOVERDIR=$d $bin -tier $tier -seed ${VERIF_SEED:-1} -evidence $scratch/ev-$p.json -replays $scratch/rep-$p \
+  div=${COV_DIV:-10}; [ $p = C13 ] && div=1   # C13's cases are whole workloads: all of them
+  VERIF_BUDGET_DIV=$div GOMAXPROCS=${COV_PROCS:-4} GOCOVERDIR=$d $bin -tier $tier -seed ${VERIF_SEED:-1} -evidence $scratch/ev-$p.json -replays $scratch/rep-$p \
       -known $verif/known_findings.jsonl -caselog $scratch/cases-$p.log -watchdog-mul 5 > $scratch/out-$p.txt 2>$scratch/err-$p.txt
   echo "$p exit=$? $(grep -c '^VIOLATION' $scratch/out-$p.txt) violation lines"
   go tool covdata func -i=$d 2>/dev/null | grep -v '^verif/' > coverage/$p.func.txt
+  go tool covdata textfmt -i=$d -o $scratch/prof-$p.txt 2>/dev/null && grep -v '^verif/' $scratch/prof-$p.txt > coverage/$p.profile.txt
   rm -rf $d $bin
 done
 [ -n "${COV_NOSUMMARY:-}" ] || { python3 tools/coverage_summary.py $props > coverage/SUMMARY.md; echo "wrote coverage/SUMMARY.md"; }
